@@ -82,6 +82,55 @@ pub mod a_bad {
         fn take(&self, l: Box<dyn Leaf>, x: u32) -> u32;
     }
 }
+/// two definitions of one interface that differ only in the bounds of an owned closure argument: an implementation that
+/// requires `Send + Sync` (it may call the closure from several threads) must refuse a caller that does not promise it
+pub mod c_caller {
+    use savefile_derive::savefile_abi_exportable;
+    #[savefile_abi_exportable(version = 0)]
+    pub trait IfC: Send + Sync {
+        fn run(&self, f: Box<dyn Fn(u32) -> u32>, x: u32) -> u32;
+    }
+}
+pub mod c_callee {
+    use savefile_derive::savefile_abi_exportable;
+    #[savefile_abi_exportable(version = 0)]
+    pub trait IfC: Send + Sync {
+        fn run(&self, f: Box<dyn Fn(u32) -> u32 + Send + Sync>, x: u32) -> u32;
+    }
+}
+pub struct ImplC;
+impl c_callee::IfC for ImplC {
+    fn run(&self, f: Box<dyn Fn(u32) -> u32 + Send + Sync>, x: u32) -> u32 {
+        f(x)
+    }
+}
+/// an implementation of a_v0::IfA whose Drop uses the library (creates a connection and calls through it): if the
+/// library ever drops it while holding one of its own locks, that is a self-deadlock
+pub struct ImplDropper;
+impl Drop for ImplDropper {
+    fn drop(&mut self) {
+        if let Ok(c) = savefile_abi::AbiConnection::<dyn IfB>::from_boxed_trait(Box::new(ImplB)) {
+            let _ = c.h("dropper".into());
+        }
+    }
+}
+impl a_v0::IfA for ImplDropper {
+    fn f(&self, x: u32) -> u32 {
+        x
+    }
+    fn g(&self, a: a_v0::Arg) -> u32 {
+        a.a
+    }
+    fn cb(&self, f: &dyn Fn(u32) -> u32, x: u32) -> u32 {
+        f(x)
+    }
+    fn mk(&self, t: u32) -> Box<dyn Leaf> {
+        Box::new(LeafImpl(t))
+    }
+    fn take(&self, l: Box<dyn Leaf>, x: u32) -> u32 {
+        l.ping(x)
+    }
+}
 pub struct ImplA0;
 impl a_v0::IfA for ImplA0 {
     fn f(&self, x: u32) -> u32 {
